@@ -321,3 +321,8 @@ func isAbortCallee(cc *ssa.CallCommon) bool {
 	f := cc.StaticCallee()
 	return f != nil && f.Pkg != nil && f.Pkg.Pkg.Path() == core.Mod+"/server" && roleAbort(f)
 }
+
+func isConstZero(v ssa.Value) bool {
+	n, ok := ssax.ConstInt(v)
+	return ok && n == 0
+}
